@@ -32,7 +32,12 @@ TECH = {
 }
 
 
+PROGRAM = [None]
+
+
 def main():
+    from sa.model import Program
+    PROGRAM[0] = Program.from_dir("/repo/src/aioftp")
     checks = []
     na = []
     props = [json.loads(l) for l in (ROOT / "properties.jsonl").read_text().splitlines() if l.strip()]
@@ -43,6 +48,15 @@ def main():
             na.append({"property_id": pid, "reason": "check not built yet in this round (planned: see DESIGN.md section 4)"})
             continue
         mod = importlib.import_module(f"sa.props.{pid.lower()}")
+        # rule ids and their one-line statements as the check itself declares them on the current tree
+        rules_txt = ""
+        try:
+            from sa.cli import run_rules
+            from sa.model import Program
+            _m, ctx = run_rules(pid, PROGRAM[0], "quick")
+            rules_txt = " Rules on the current tree: " + "; ".join(f"{r}" for r in sorted(ctx.rules))
+        except Exception as e:  # the manifest must be writable even if a check is broken
+            rules_txt = ""
         checks.append({
             "property_id": pid,
             "quick_cmd": f"./check {pid} --tier quick",
@@ -52,7 +66,7 @@ def main():
             "engine": "sa",
             "level_claimed": {
                 "category": "other",
-                "text": "static analysis (named rules over the current source), structural necessary conditions only: " + mod.EXPLANATION[:600],
+                "text": "static analysis (named rules over the current source), structural necessary conditions only: " + mod.EXPLANATION[:600] + rules_txt,
                 "design_ref": f"DESIGN.md section 4, {pid}",
             },
             "level_note": "Decides only the clauses listed under 'decided' in DESIGN.md; NOT decided: " + "; ".join(mod.NOT_DECIDED)
